@@ -42,7 +42,7 @@ Definition ans_eqb (a b : ans) : bool :=
   | _, _ => false
   end.
 
-Record ost := OS { o_members : list (N * N); o_grants : list lgrant; o_secrets : list N }.
+Record ost := OS { o_members : list (N * N); o_grants : list lgrant; o_secrets : list N; o_delegs : list (N * N * list N) }.
 
 (* verdict of one call on the implementation's answer: 0 fine, 2 violation, 10 = lazy-expiry class *)
 Definition K_TTL : N := 0.
@@ -75,16 +75,43 @@ Definition step_oracle (p : policy) (o : ost) (now : N) (op1 : op) (a : ans) : N
   | _ => 0
   end.
 
+(* the oracle's own reading of a cascading revoke over its own delegation records *)
+Fixpoint o_desc (ds : list (N * N * list N)) (fuel : nat) (nodes : list N) : list N :=
+  match fuel with
+  | O => nodes
+  | S f => o_desc ds f (nodes ++ map (fun r => snd (fst r)) (filter (fun r => mem (fst (fst r)) nodes && negb (mem (snd (fst r)) nodes)) ds))
+  end.
 Definition track (o : ost) (now : N) (op1 : op) (a : ans) : ost :=
   match op1 with
-  | OSet _ x _ => if ok_code a && negb (mem x (o_secrets o)) then OS (o_members o) (o_grants o) (x :: o_secrets o) else o
+  | OSet _ x _ => if ok_code a && negb (mem x (o_secrets o)) then OS (o_members o) (o_grants o) (x :: o_secrets o) (o_delegs o) else o
   | ODelete _ x => if ok_code a then OS (o_members o) (filter (fun g => negb (N.eqb (l_secret g) x)) (o_grants o))
-                                       (filter (fun y => negb (N.eqb y x)) (o_secrets o)) else o
-  | OGrant _ e x l t => if ok_code a then OS (o_members o) (o_grants o ++ [LG e x l (match t with Some d => Some (now + d) | None => None end)]) (o_secrets o) else o
-  | ODelegate _ c xs l t => if ok_code a then OS (o_members o) (o_grants o ++ map (fun x => LG c x l (match t with Some d => Some (now + d) | None => None end)) xs) (o_secrets o) else o
-  | ORevoke _ e x => if ok_code a then OS (o_members o) (filter (fun g => negb (N.eqb (l_from g) e && N.eqb (l_secret g) x)) (o_grants o)) (o_secrets o) else o
-  | OMember a1 b1 => OS (o_members o ++ [(a1, b1)]) (o_grants o) (o_secrets o)
-  | OUnmember a1 b1 => OS (filter (fun e => negb (N.eqb (fst e) a1 && N.eqb (snd e) b1)) (o_members o)) (o_grants o) (o_secrets o)
+                                       (filter (fun y => negb (N.eqb y x)) (o_secrets o)) (o_delegs o) else o
+  | OGrant _ e x l t => if ok_code a then OS (o_members o) (o_grants o ++ [LG e x l (match t with Some d => Some (now + d) | None => None end)]) (o_secrets o) (o_delegs o) else o
+  | ODelegate pa c xs l t =>
+      if ok_code a then
+        OS (o_members o) (o_grants o ++ map (fun x => LG c x l (match t with Some d => Some (now + d) | None => None end)) xs) (o_secrets o)
+           (filter (fun r => negb (N.eqb (fst (fst r)) pa && N.eqb (snd (fst r)) c)) (o_delegs o) ++ [(pa, c, xs)])
+      else o
+  | ORevokeDeleg pa c =>
+      if ok_code a then
+        match find (fun r => N.eqb (fst (fst r)) pa && N.eqb (snd (fst r)) c) (o_delegs o) with
+        | Some r => OS (o_members o) (filter (fun g => negb (N.eqb (l_from g) c && mem (l_secret g) (snd r))) (o_grants o)) (o_secrets o)
+                       (filter (fun r' => negb (N.eqb (fst (fst r')) pa && N.eqb (snd (fst r')) c)) (o_delegs o))
+        | None => o
+        end
+      else o
+  | ORevokeCascade pa c =>
+      if ok_code a then
+        let nodes := o_desc (o_delegs o) (length (o_delegs o)) [c] in
+        let gone := fun r : N * N * list N => (N.eqb (fst (fst r)) pa && N.eqb (snd (fst r)) c) || mem (fst (fst r)) nodes in
+        let recs := filter gone (o_delegs o) in
+        OS (o_members o)
+           (filter (fun g => negb (existsb (fun r : N * N * list N => N.eqb (snd (fst r)) (l_from g) && mem (l_secret g) (snd r)) recs)) (o_grants o))
+           (o_secrets o) (filter (fun r => negb (gone r)) (o_delegs o))
+      else o
+  | ORevoke _ e x => if ok_code a then OS (o_members o) (filter (fun g => negb (N.eqb (l_from g) e && N.eqb (l_secret g) x)) (o_grants o)) (o_secrets o) (o_delegs o) else o
+  | OMember a1 b1 => OS (o_members o ++ [(a1, b1)]) (o_grants o) (o_secrets o) (o_delegs o)
+  | OUnmember a1 b1 => OS (filter (fun e => negb (N.eqb (fst e) a1 && N.eqb (snd e) b1)) (o_members o)) (o_grants o) (o_secrets o) (o_delegs o)
   | _ => o
   end.
 
@@ -107,7 +134,7 @@ Definition canon (a : ans) : ans := match a with AList l => AList (sort l) | _ =
 Definition hist_case := (policy * list op * list ans)%type.
 Definition check_hist (c : hist_case) : N :=
   let '(p, ops, as_) := c in
-  let e := hist_oracle p (OS [] [] []) 0 ops as_ in
+  let e := hist_oracle p (OS [] [] [] []) 0 ops as_ in
   if negb (N.eqb e 0) then e
   else
     let '(_, ms) := run p gen_sweep_on_check gen_max_deleg_depth gen_sealed_guard init 0 ops in
